@@ -26,17 +26,20 @@ Definition to_ascii_lowercase (c : N) : N := if (65 <=? c) && (c <=? 90) then c 
 Definition eq_ignore_ascii_case (a b : N) : bool :=
   to_ascii_lowercase a =? to_ascii_lowercase b.
 
-(* the six local variables of detect_custom_number_format *)
+(* the nine local variables of detect_custom_number_format *)
 Record st : Type := mkSt {
   escaped : bool;
   is_quote : bool;
   brackets : N;      (* u8 *)
   prev : N;          (* char *)
   hms : bool;
-  ap : bool
+  ap : bool;
+  a_run : N;         (* u8: unquoted `a`s in a row (0, 1 or 2 at the top of the loop) *)
+  digit : bool;      (* the previous character was a digit placeholder *)
+  keyword : N        (* u8: characters of a `General` keyword still to pass over *)
 }.
 
-Definition init : st := mkSt false false 0 32 false false.   (* prev = ' ' *)
+Definition init : st := mkSt false false 0 32 false false 0 false 0.   (* prev = ' ' *)
 
 (* u8::saturating_add(1) / saturating_sub(1) *)
 Definition sat_inc (b : N) : N := if b <? 255 then b + 1 else 255.
@@ -53,52 +56,93 @@ Definition is_pm_slash (s : N) : bool := mem s [112; 109; 47; 80; 77].     (* 'p
 Definition is_date_letter (s : N) : bool :=
   mem s [100; 109; 104; 121; 115; 68; 77; 72; 89; 83].        (* d m h y s D M H Y S *)
 Definition is_mhs (s : N) : bool := mem s [109; 104; 115; 77; 72; 83].     (* m h s M H S *)
+Definition is_g (s : N) : bool := mem s [103; 71].                         (* 'g' | 'G' *)
+Definition is_e (s : N) : bool := mem s [101; 69].                         (* 'e' | 'E' *)
+Definition is_gb (s : N) : bool := mem s [103; 98; 71; 66].                (* 'g' | 'b' | 'G' | 'B' *)
+Definition is_placeholder (s : N) : bool := mem s [48; 35; 63; 46; 44].    (* '0' | '#' | '?' | '.' | ',' *)
 
-(* One iteration of `for s in format.chars()`: the match on (s, escaped, is_quote, ap, brackets)
-   with the arms in source order (as of commits ac433ce, c5a918f, a61713f), then `prev = s`. *)
-Definition step (q : st) (s : N) : step_result :=
-  let '(mkSt e iq b p h a) := q in
+(* is_general(&format[i..]): s.get(..7).is_some_and(|w| w.eq_ignore_ascii_case("General")).
+   The Rust test looks at the first seven BYTES; they equal "General" up to ASCII case exactly
+   when the first seven characters do (seven ASCII bytes are seven characters, and `get` answers
+   None when byte 7 is not a character boundary, in which case a non-ASCII byte is among them). *)
+Definition kw_general : list N := [103; 101; 110; 101; 114; 97; 108].     (* "general" *)
+Fixpoint starts_with_ci (w l : list N) : bool :=
+  match w, l with
+  | [], _ => true
+  | _ :: _, [] => false
+  | x :: w', c :: l' => (to_ascii_lowercase c =? x) && starts_with_ci w' l'
+  end.
+Definition is_general (l : list N) : bool := starts_with_ci kw_general l.
+
+(* One iteration of `for (i, s) in format.char_indices()`; [rest] is what follows s in the format
+   (format[i..] = s :: rest).  In source order: the keyword skip (`continue`: prev is not
+   updated), `exponent = take(&mut digit)`, the a_run block with its early return, then the match
+   on (s, escaped, is_quote, ap, brackets) — arms as of the fix "date formats made only of
+   weekday / era / Buddhist-year tokens" on top of ac433ce, c5a918f, a61713f — then `prev = s`.
+   `a_run += 1` cannot overflow: a_run is reset or the function returns at 3
+   (NumFmt_proofs.a_run_bounded); `keyword -= 1` runs under `keyword > 0`. *)
+Definition step (q : st) (s : N) (rest : list N) : step_result :=
+  let '(mkSt e iq b p h a ar dg kw) := q in
+  (* if keyword > 0 { keyword -= 1; continue; } *)
+  if 0 <? kw then Continue (mkSt e iq b p h a ar dg (kw - 1))
+  else
+  let exponent := dg in                          (* digit is false from here on, see below *)
+  (* if !escaped && !is_quote && brackets == 0 && matches!(s, 'a' | 'A')
+       { a_run += 1; if a_run == 3 { return DateTime } } else { a_run = 0 } *)
+  let plain_a := negb e && negb iq && (b =? 0) && is_a s in
+  if plain_a && (ar + 1 =? 3) then Return DateTime
+  else
+  let ar := if plain_a then ar + 1 else 0 in
   (* (_, true, ..) => escaped = false *)
-  if e then Continue (mkSt false iq b s h a)
+  if e then Continue (mkSt false iq b s h a ar false 0)
   (* (DQUOTE, _, true, _, _) => is_quote = false *)
-  else if (s =? 34) && iq then Continue (mkSt e false b s h a)
+  else if (s =? 34) && iq then Continue (mkSt e false b s h a ar false 0)
   (* (_, _, true, _, _) => ()      inside a quoted literal nothing is special *)
-  else if iq then Continue (mkSt e iq b s h a)
+  else if iq then Continue (mkSt e iq b s h a ar false 0)
   (* ('_' | '\\' | '*', ..) => escaped = true *)
-  else if is_esc s then Continue (mkSt true iq b s h a)
+  else if is_esc s then Continue (mkSt true iq b s h a ar false 0)
   (* (DQUOTE, _, _, _, _) => is_quote = true *)
-  else if s =? 34 then Continue (mkSt e true b s h a)
+  else if s =? 34 then Continue (mkSt e true b s h a ar false 0)
   (* (';', ..) => return Other *)
   else if s =? 59 then Return Other
   (* ('[', ..) => brackets = brackets.saturating_add(1) *)
-  else if s =? 91 then Continue (mkSt e iq (sat_inc b) s h a)
+  else if s =? 91 then Continue (mkSt e iq (sat_inc b) s h a ar false 0)
   (* (']', .., 1) if hms => return TimeDelta *)
   else if (s =? 93) && (b =? 1) && h then Return TimeDelta
   (* (']', ..) => brackets = brackets.saturating_sub(1) *)
-  else if s =? 93 then Continue (mkSt e iq (sat_dec b) s h a)
+  else if s =? 93 then Continue (mkSt e iq (sat_dec b) s h a ar false 0)
   (* ('a' | 'A', _, _, false, 0) => ap = true *)
-  else if is_a s && negb a && (b =? 0) then Continue (mkSt e iq b s h true)
+  else if is_a s && negb a && (b =? 0) then Continue (mkSt e iq b s h true ar false 0)
   (* ('p' | 'm' | '/' | 'P' | 'M', _, _, true, 0) => return DateTime *)
   else if is_pm_slash s && a && (b =? 0) then Return DateTime
+  (* ('g' | 'G', .., 0) if is_general(&format[i..]) => keyword = 6 *)
+  else if is_g s && (b =? 0) && is_general (s :: rest) then Continue (mkSt e iq b s h a ar false 6)
+  (* ('e' | 'E', _, _, false, 0) if !exponent => return DateTime *)
+  else if is_e s && negb a && (b =? 0) && negb exponent then Return DateTime
+  (* ('g' | 'b' | 'G' | 'B', _, _, false, 0) => return DateTime *)
+  else if is_gb s && negb a && (b =? 0) then Return DateTime
   (* ('d' | 'm' | 'h' | 'y' | 's' | 'D' | 'M' | 'H' | 'Y' | 'S', _, _, false, 0) => return DateTime *)
   else if is_date_letter s && negb a && (b =? 0) then Return DateTime
   (* _ => { ap = false;
-            if hms && s.eq_ignore_ascii_case(&prev) {} else { hms = prev == '[' && matches!(s, m h s M H S) } } *)
+            if hms && s.eq_ignore_ascii_case(&prev) {} else { hms = prev == '[' && matches!(s, m h s M H S) }
+            digit = matches!(s, '0' | '#' | '?' | '.' | ',') } *)
   else
     let h' := if h && eq_ignore_ascii_case s p then h else (p =? 91) && is_mhs s in
-    Continue (mkSt e iq b s h' false).
+    Continue (mkSt e iq b s h' false ar (is_placeholder s) 0).
 
 (* the loop with its early returns *)
 Fixpoint run (q : st) (l : list N) : step_result :=
   match l with
   | [] => Continue q
-  | c :: t => match step q c with
+  | c :: t => match step q c t with
               | Continue q' => run q' t
               | Return f => Return f
               end
   end.
 
-(* detect_custom_number_format: no panic site (both counters saturate), no fuel (one pass) *)
+(* detect_custom_number_format: no panic site (the two bracket counters saturate, a_run stays
+   below 3, keyword is decremented only when positive, format[i..] starts at a character
+   boundary and `get(..7)` is checked), no fuel (one pass) *)
 Definition detect (format : list N) : cell_format :=
   match run init format with
   | Return f => f
@@ -314,7 +358,15 @@ Inductive token : Type :=
 | TAmPm (ups : list bool)                (* AM/PM *)
 | TAP (ups : list bool)                  (* A/P *)
 | TSecFrac (n : nat)                     (* .0 .00 .000 : '.' and n+1 zeros *)
-| TElapsed (l : eletter) (n : nat) (ups : list bool). (* [h] [hh] [mm] [ss] … *)
+| TElapsed (l : eletter) (n : nat) (ups : list bool) (* [h] [hh] [mm] [ss] … *)
+(* date tokens of Excel's format language that ECMA-376 lists only inside the locale-specific
+   built-in formats of 18.8.30 ([$-411]ge.m.d, [$-404]e/m/d, d/m/bb) and that [MS-OI29500] adds to
+   the grammar of 18.8.31; a format may consist of nothing else (the weekday column aaa of
+   Japanese / Chinese / Korean workbooks, a year column ggge or bbbb) *)
+| TWeekday (long : bool) (ups : list bool)    (* aaa aaaa : day of the week *)
+| TEra (n : nat) (ups : list bool)            (* g gg ggg : era, n+1 letters *)
+| TEraYear (long : bool) (ups : list bool)    (* e ee : year of the era *)
+| TBuddhist (long : bool) (ups : list bool).  (* bb bbbb : Buddhist year *)
 
 Definition section := list token.
 Definition ast := list section.            (* sections are separated by ';' *)
@@ -395,6 +447,10 @@ Definition render_tok (t : token) : list N :=
   | TAmPm ups => recase w_ampm ups
   | TAP ups => recase w_ap ups
   | TSecFrac n => 46 :: repeat 48 (S n)
+  | TWeekday long ups => recase (repeat 97 (if long then 4 else 3)%nat) ups
+  | TEra n ups => recase (repeat 103 (S n)) ups
+  | TEraYear long ups => recase (repeat 101 (if long then 2 else 1)%nat) ups
+  | TBuddhist long ups => recase (repeat 98 (if long then 4 else 2)%nat) ups
   end.
 
 Definition render_section (s : section) : list N := flat_map render_tok s.
@@ -410,6 +466,7 @@ Fixpoint render (a : ast) : list N :=
 Definition tok_kind (t : token) : cell_format :=
   match t with
   | TDate _ _ _ | TAmPm _ | TAP _ => DateTime
+  | TWeekday _ _ | TEra _ _ | TEraYear _ _ | TBuddhist _ _ => DateTime
   | TElapsed _ _ _ => TimeDelta
   | _ => Other
   end.
@@ -447,17 +504,43 @@ Definition wf_tok (t : token) : bool :=
   | TColour (CIndexed n) _ => (1 <=? n) && (n <=? 56)
   | TCond _ num => nonempty num && forallb is_numchar num
   | TLocale cur lcid => forallb (fun c => negb (bracket_special c)) cur && forallb is_hex lcid
+  | TEra n _ => Nat.leb n 2
   | _ => true
   end.
 
-Definition wf_section (s : section) : bool := forallb wf_tok s.
+(* Two tokens depend on their left neighbour.  The exponent E+ / E- / e+ / e- is part of a number
+   (18.8.31: it follows the digit placeholders of the mantissa): it is well-formed only directly
+   after a placeholder 0 # ?, a decimal point or a comma.  Anywhere else the letter e is the year
+   of the era, which conversely cannot stand directly after a placeholder (a section is a number
+   or a date, not both; "0e" has no reading).  [ends_num t]: the rendering of t ends with a
+   placeholder character in the sense above. *)
+Definition ends_num (t : token) : bool :=
+  match t with
+  | TDigit _ | TSecFrac _ => true
+  | TLit c => (c =? 46) || (c =? 44)
+  | _ => false
+  end.
+Definition ctx_tok (after_num : bool) (t : token) : bool :=
+  match t with
+  | TExp _ _ => after_num
+  | TEraYear _ _ => negb after_num
+  | _ => true
+  end.
+Fixpoint ctx_ok (after_num : bool) (s : section) : bool :=
+  match s with
+  | [] => true
+  | t :: r => ctx_tok after_num t && ctx_ok (ends_num t) r
+  end.
+
+Definition wf_section (s : section) : bool := forallb wf_tok s && ctx_ok false s.
 Definition wf (a : ast) : bool := forallb wf_section a.
 
 (* characters the scanner acts on outside quotes, escapes and brackets; every other character
    leaves a boundary state unchanged (proof vocabulary, also used by the test driver) *)
 Definition significant (c : N) : bool :=
   mem c [34; 92; 95; 42; 91; 93; 59; 47;
-         97; 112; 100; 109; 104; 121; 115; 65; 80; 68; 77; 72; 89; 83].
+         97; 112; 100; 109; 104; 121; 115; 65; 80; 68; 77; 72; 89; 83;
+         103; 101; 98; 71; 69; 66].                                      (* g e b G E B *)
 
 (* ---- the ECMA-376 list of built-in date/time format ids (18.8.30), written by hand ---- *)
 Definition ecma_builtin (id : N) : cell_format :=
